@@ -449,6 +449,15 @@ def run_session(scn) -> RunResult:
                 got = snapshot(loaded)
             finally:
                 pw.close()
+            if not crashed and k >= nops and not (o == "ok" and got == final_snap):
+                # no crash at all: start -> changes -> stop ran to the end, so the registry as of the stop is "the
+                # registry as last successfully saved" - an older snapshot or an empty file is a lost save
+                lres0 = ("older-registry" if got in candidates else "empty-registry" if not got else "other-registry") \
+                    if o == "ok" else "unreadable"
+                res.violate(PROP, "orderly-stop", f"final-registry-not-on-disk:{lres0}",
+                            f"session mode, no crash: stop_at={scn['stop_at']} image {len(image) if image is not None else None} "
+                            f"bytes loads to {sorted(got)} want {sorted(final_snap)}"[:400])
+                continue
             if o == "ok" and got in candidates:
                 res.probes["post_crash_old" if got == old_snap else "post_crash_new"] += 1
                 if k % 5 == 0:
